@@ -107,7 +107,7 @@ def rerun(ctx, vh, row, times=2):
     """re-run one scenario alone; returns the rows observed"""
     out = []
     for k in range(times):
-        rows = ctx.vh_jsonl(vh, "lifecycle", ["-only", json.dumps(scen(row)), "-seed", ctx.seed + k + 1], timeout=120)
+        rows = ctx.vh_jsonl(vh, "lifecycle", ["-only", json.dumps(scen(row)), "-patient", "-seed", ctx.seed + k + 1], timeout=300)
         if rows:
             out.extend(rows)
     return out
@@ -167,6 +167,7 @@ def run(ctx):
     # failing observations are re-run alone (the machine may be loaded: an unsettled scenario is not a
     # verdict); a failure that shows again is reported with the scenario as its replay
     confirmed, flaky = [], 0
+    flaky_rows = set()
     seen = set()
     reruns = 0
     for (ri, s) in bad_oracle:
@@ -189,6 +190,33 @@ def run(ctx):
             confirmed.append((rows[ri], s, refail))
         else:
             flaky += 1
+            flaky_rows.add(ri)
+            ctx.note("not reproduced (2 patient re-runs passed): %s reached=%s settled=%s wait_ms=%s sends=%s requests seen by the server=%s" % (
+                scen(rows[ri]), rows[ri]["reached"], rows[ri]["settled"], rows[ri]["wait_ms"],
+                rows[ri].get("sends"), (rows[ri].get("reqlog") or [])[:12]))
+    # the same rule for an observation that only the model comparison rejects: it has to show again
+    confirmed_rows = set(id(c[0]) for c in confirmed)
+    agree_left = []
+    for (ri, s, ph, cs) in bad_agree:
+        if ri in flaky_rows or id(rows[ri]) in confirmed_rows:
+            continue
+        if ri in seen:                      # oracle failure of this row was confirmed or is hard
+            agree_left.append((ri, s, ph, cs))
+            continue
+        seen.add(ri)
+        if reruns >= 8:
+            agree_left.append((ri, s, ph, cs))
+            continue
+        reruns += 1
+        again = [r for r in rerun(ctx, vh, rows[ri]) if not r.get("env_fail")]
+        pr = evaluate(ctx, "lc_ra%d" % ri, again)[0] if again else {}
+        if any(not x[3] for lst in pr.values() for x in lst):
+            agree_left.append((ri, s, ph, cs))
+        else:
+            flaky += 1
+            flaky_rows.add(ri)
+            ctx.note("model comparison not reproduced (2 patient re-runs agree): %s socket=%s" % (scen(rows[ri]), s))
+    bad_agree = agree_left
     ctx.indeterminate += flaky
     if flaky:
         ctx.note("%d scenario(s) failed once (no duplicate/spurious report) and passed twice when re-run alone: counted as indeterminate" % flaky)
